@@ -254,3 +254,43 @@ def cond_is_emptiness_continue(test, var_names: set[str]):
                 return True, c == 0
             return True, False
     return False, False
+
+
+# --------------------------------------------------------------------------- local name resolution
+def single_assignments(func_node) -> dict:
+    """{local name: value expr} for names assigned exactly once in the function (plain `name = expr`)."""
+    seen: dict[str, list] = {}
+    for st in func_stmts(func_node):
+        if isinstance(st, ast.Assign):
+            for t in st.targets:
+                if isinstance(t, ast.Name):
+                    seen.setdefault(t.id, []).append(st.value)
+        elif isinstance(st, (ast.AugAssign, ast.For)):
+            for t in assigned_targets(st):
+                if isinstance(t, ast.Name):
+                    seen.setdefault(t.id, []).append(None)
+    return {k: v[0] for k, v in seen.items() if len(v) == 1 and v[0] is not None}
+
+
+def expand(func_node, expr, depth=3) -> str:
+    """Text of expr with once-assigned local names replaced by the text of their defining expressions."""
+    defs = single_assignments(func_node)
+
+    class Sub(ast.NodeTransformer):
+        def visit_Name(self, node):
+            if isinstance(node.ctx, ast.Load) and node.id in defs:
+                return ast.copy_location(_copy(defs[node.id]), node)
+            return node
+
+    import copy
+
+    def _copy(n):
+        return copy.deepcopy(n)
+
+    cur = copy.deepcopy(expr)
+    for _ in range(depth):
+        new = Sub().visit(copy.deepcopy(cur))
+        if norm(new) == norm(cur):
+            break
+        cur = new
+    return norm(cur)
